@@ -15,7 +15,7 @@ func init() {
 		ID: "C18",
 		Explanation: "Decides structural necessary conditions of C18: (R-C18-1) encoding agreement at every hop: PutRequest.Value and SecretValue.Value are []byte (base64 in JSON) with the documented wire signatures, the stored form uses one standard base64 on both sides (R-C03-4), cache and file client agree (R-C13-4); " +
 			"(R-C18-2) transformer allow-list on the value path: following secret bytes from the request through the store and back out (db, server, client library), the only operations applied to them are []byte/string conversions, copies, json Marshal/Unmarshal, standard base64, Encrypt/Decrypt, readers; any other callee that takes the bytes and yields bytes or text (TrimSpace, ToValidUTF8, strings.*), any re-slicing with bounds and any concatenation is reported; " +
-			"(R-C18-4) bytes held by the Store (current or superseded) are never overwritten in place, so a value once served stays byte-identical; (R-C18-3) CLI policy of `setec put`: every path to the Put request passes the false edge of (len(value) == 0 && !EmptyOK) for the value sent; on the file and pipe branches the value sent is checkPutText applied to exactly the bytes read; checkPutText returns its input for invalid UTF-8, for text without surrounding whitespace, and under --verbatim (tested before --trim-space), the trimmed text only under --trim-space, and otherwise an error, on which put returns before contacting the server. (R-C18-6) a lookup returns the handle of the name asked for: the single-flight key is per name (C16's R-C16-2). (R-C18-3, extended) the put command sends no request other than Put (a refused put contacts nothing).",
+			"(R-C18-4) bytes held by the Store (current or superseded) are never overwritten in place, so a value once served stays byte-identical; (R-C18-3) CLI policy of `setec put`: every path to the Put request passes the false edge of (len(value) == 0 && !EmptyOK) for the value sent; on the file and pipe branches the value sent is checkPutText applied to exactly the bytes read; checkPutText returns its input for invalid UTF-8, for text without surrounding whitespace, and under --verbatim (tested before --trim-space), the trimmed text only under --trim-space, and otherwise an error, on which put returns before contacting the server. (R-C18-6) a lookup returns the handle of the name asked for: the single-flight key is per name (C16's R-C16-2). (R-C18-3, extended) the put command sends no request other than Put (a refused put contacts nothing). (R-C18-7) whatever bytes the service answers with (empty included) are installed by a poll (C11's R-C11-8).",
 		NotDecided:  "Equality for all byte strings (depends on encoding/json, base64 and the AEAD: trusted); the interactive terminal branch's confirmation dialogue.",
 		Trusted:     append([]string{"encoding/json round-trips []byte through base64", "bytes.TrimSpace removes only leading/trailing white space"}, commonTrusted...),
 		Assumptions: []string{},
